@@ -94,9 +94,10 @@ func (r *FecInterceptor) BindLocalStream(
 
 			var fecPackets []rtp.Packet
 			stream.mu.Lock()
+			// the packet is kept until the batch is complete: the caller may reuse its header and payload
 			stream.packetBuffer = append(stream.packetBuffer, rtp.Packet{
-				Header:  *header,
-				Payload: payload,
+				Header:  header.Clone(),
+				Payload: append([]byte(nil), payload...),
 			})
 
 			// Check if we have enough packets to generate FEC
